@@ -869,6 +869,7 @@ def run_7bit(ctx, n):
         ctx.count('7bit:%s:%s' % (which or 'none', '8bit-body' if eight else 'ascii-body'))
         ctx.evaluated(('7', data, which), nontrivial=eight)
         e = Envelope('sender@example.com', ['r1@example.com'])
+        before = None                      # stays None when parse()/flatten() itself raises
         try:
             e.parse(data)
             before = e.flatten()
@@ -887,7 +888,7 @@ def run_7bit(ctx, n):
             continue
         # property oracle
         if not eight:
-            if io != (0,) + before:
+            if before is None or io != (0,) + before:
                 ctx.fail('c20:7bit-ascii-body-changed', case, 'ASCII body: encode_7bit gave %r, before %r' % (io, before))
             continue
         if which is None:
